@@ -18,7 +18,7 @@ import PilotaModel.Lemmas.KeepFwd
   (`keep_retains_every_unknown_field`) — so the struct's re-encoding `known fields ++ retained` carries each of them byte
   for byte (`Binary.enc` of the same value), at every nesting level the reader knows.  The writer-side half is
   `keep_roundtrip` (bytes) / `keep_roundtrip_value` (values): for EVERY document `dw` with distinct field ids per struct,
-  EVERY reader document obtained from it by removing struct fields (`restrict dw keep`, any `keep`), EVERY typed value `w`
+  EVERY reader document obtained from it by removing struct fields and union variants (`restrict dw keep`, any `keep`), EVERY typed value `w`
   of a declared type (`hasTy`, TGen/Typed.lean: a value as the emitted encoder of `dw` writes it; `typed_is_canon`
   shows it is C02's `Canon`), at every nesting level, inside containers (sets and maps included) and unions: whenever the
   retaining reader accepts the encoding of `w` and returns `w'`, the full reader decodes the re-encoding of `w'` to exactly
@@ -142,11 +142,11 @@ theorem typed_is_canon (d : Doc) (dp : Option Nat) (hd : d.fieldsOk) (f : Nat) (
 /-- **Round trip through a reader that lacks fields, value level.**  `dw` is the writer's (full) document, `restrict dw keep`
 the reader's; `w` a typed value of `ty`; `w'` what the retaining reader makes of it.  The full reader maps `w'` back to `w`,
 for every sufficiently large recursion budget (the emitted code has none). -/
-theorem keep_roundtrip_value (dw : Doc) (keep : String → Field → Bool) (dpr dpw : Option Nat) (hd : dw.fieldsOk)
+theorem keep_roundtrip_value (dw : Doc) (keep : String → Field → Bool) (dpr dpw : Option Nat) (hd : dw.fieldsOk) (hu : dw.variantsOk)
     (f : Nat) (ty : STy) (w w' : TVal) (fK : Nat) (ht : hasTy dw f ty w = true)
     (hk : projTyK (restrict dw keep) dpr fK ty w = some (.ok w')) :
     w'.ttype = w.ttype ∧ ∃ G, ∀ g, G ≤ g → projTy dw dpw g ty w' = some (.ok w) := by
-  obtain ⟨h1, G, hG⟩ := keep_back_all dw keep dpr dpw hd f ty w ht fK w' hk
+  obtain ⟨h1, G, hG⟩ := keep_back_all dw keep dpr dpw hd hu f ty w ht fK w' hk
   exact ⟨h1, G, fun g hg => projTy_mono dw dpw G g hg ty w' w hG⟩
 
 /-- **Retained unknown fields survive re-encoding: the full reader recovers the original value** (bytes level; `er` /
@@ -155,7 +155,7 @@ reader, at the budget of its `decode` entry point, returns `w'` and leaves the t
 the re-encoding `Binary.enc ew w'` (known fields, then the retained chunks: `struct_known_then_retained`) to `w`, leaving
 its trailing input.  `hw'`: the reader's value is a Rust value (integers within their types; not derived here). -/
 theorem keep_roundtrip (er ew : Endian) (dpr dpw : Option Nat) (hedr : EndianOk er dpr) (hedw : EndianOk ew dpw)
-    (dw : Doc) (keep : String → Field → Bool) (hd : dw.fieldsOk) (n : String) (f : Nat) (w w' : TVal)
+    (dw : Doc) (keep : String → Field → Bool) (hd : dw.fieldsOk) (hu : dw.variantsOk) (n : String) (f : Nat) (w w' : TVal)
     (ht : hasTy dw f (.ref n) w = true) (hw : w.wt = true) (hw' : w'.wt = true) (rest rest' : Bytes)
     (hk : projTyK (restrict dw keep) dpr (3 * (Binary.enc er w ++ rest).length + 8) (.ref n) w = some (.ok w')) :
     decodeK er dpr (restrict dw keep) n (Binary.enc er w ++ rest) = .ok (w', rest) ∧
@@ -163,7 +163,7 @@ theorem keep_roundtrip (er ew : Endian) (dpr dpw : Option Nat) (hedr : EndianOk 
   constructor
   · have := keep_decode_is_projection er dpr (restrict dw keep) n w rest (.ok w') hedr hw hk
     simpa [withRest, mapOut] using this
-  · obtain ⟨_, G, hG⟩ := keep_roundtrip_value dw keep dpr dpw hd f (.ref n) w w' _ ht hk
+  · obtain ⟨_, G, hG⟩ := keep_roundtrip_value dw keep dpr dpw hd hu f (.ref n) w w' _ ht hk
     refine ⟨G, fun g hg => ?_⟩
     have := (corr_all ew dpw dw hedw g).1 (.ref n) w' rest' (.ok w) hw' (hG g hg)
     simpa [withRest, mapOut] using this
@@ -171,25 +171,25 @@ theorem keep_roundtrip (er ew : Endian) (dpr dpw : Option Nat) (hedr : EndianOk 
 /-- **The retaining reader accepts every typed value within its skipper's depth budget** (`dpr = none`, the unchecked
 codec: no limit), with the same result for every sufficiently large recursion budget; the result is a Rust value (integers
 within their types, sizes below 2^31) whenever the original is, and has its wire type. -/
-theorem keep_accepts (dw : Doc) (keep : String → Field → Bool) (dpr : Option Nat) (hd : dw.fieldsOk)
+theorem keep_accepts (dw : Doc) (keep : String → Field → Bool) (dpr : Option Nat) (hd : dw.fieldsOk) (hu : dw.variantsOk)
     (f : Nat) (ty : STy) (w : TVal) (ht : hasTy dw f ty w = true) (ha : admits dpr w.need) :
     ∃ w' B, (w.wt = true → w'.wt = true) ∧ w'.ttype = w.ttype ∧
       ∀ fK, B ≤ fK → projTyK (restrict dw keep) dpr fK ty w = some (.ok w') := by
-  obtain ⟨w', B, hs, hB⟩ := keep_accepts_all dw keep dpr hd f ty w ht ((admitsB_iff dpr _).mpr ha)
+  obtain ⟨w', B, hs, hB⟩ := keep_accepts_all dw keep dpr hd hu f ty w ht ((admitsB_iff dpr _).mpr ha)
   exact ⟨w', B, hs.1, hs.2, hB⟩
 
 /-- **C13 as one statement, bytes level, no side hypotheses about the reader**: for every writer document with distinct
-field ids per struct, every reader that lacks any set of struct fields, every typed Rust value `w` of a declared type nested
+field ids per struct and variant ids per union, every reader that lacks any set of struct fields and union variants, every typed Rust value `w` of a declared type nested
 no deeper than the reader's skipper budget, every pair of binary-family protocols and all trailing inputs: the retaining
 reader decodes the encoding of `w` to some `w'` leaving the trailing input, and the full reader decodes the re-encoding of
 `w'` to exactly `w`, leaving its trailing input - for all sufficiently large recursion budgets (the emitted code has none). -/
 theorem keep_roundtrip_total (er ew : Endian) (dpr dpw : Option Nat) (hedr : EndianOk er dpr) (hedw : EndianOk ew dpw)
-    (dw : Doc) (keep : String → Field → Bool) (hd : dw.fieldsOk) (n : String) (f : Nat) (w : TVal)
+    (dw : Doc) (keep : String → Field → Bool) (hd : dw.fieldsOk) (hu : dw.variantsOk) (n : String) (f : Nat) (w : TVal)
     (ht : hasTy dw f (.ref n) w = true) (hw : w.wt = true) (ha : admits dpr w.need) (rest rest' : Bytes) :
     ∃ w' B G, (∀ fK, B ≤ fK → decTyK er dpr (restrict dw keep) fK (.ref n) (Binary.enc er w ++ rest) = .ok (w', rest)) ∧
       (∀ g, G ≤ g → decTy (binRd ew dpw) dw g (.ref n) (Binary.enc ew w' ++ rest') = .ok (w, rest')) := by
-  obtain ⟨w', B, hwt, _, hB⟩ := keep_accepts dw keep dpr hd f (.ref n) w ht ha
-  obtain ⟨_, G, hG⟩ := keep_roundtrip_value dw keep dpr dpw hd f (.ref n) w w' B ht (hB B (Nat.le_refl _))
+  obtain ⟨w', B, hwt, _, hB⟩ := keep_accepts dw keep dpr hd hu f (.ref n) w ht ha
+  obtain ⟨_, G, hG⟩ := keep_roundtrip_value dw keep dpr dpw hd hu f (.ref n) w w' B ht (hB B (Nat.le_refl _))
   refine ⟨w', B, G, fun fK hf => ?_, fun g hg => ?_⟩
   · have := keep_tolerant er dpr (restrict dw keep) (.ref n) w rest fK (.ok w') hedr hw (hB fK hf)
     simpa [withRest, mapOut] using this
@@ -225,6 +225,24 @@ example : wDoc.fieldsOk := by
     have h1 : ("S" == n) = false := by simpa using fun h => hS h.symm
     have h2 : ("T" == n) = false := by simpa using fun h => hT h.symm
     simp [h1, h2] at h
+
+/-! non-vacuity for unions: the reader lacks variant 2 of `U` (and field 1 of the struct inside it is irrelevant then): the variant is
+retained as it is and the full reader gets the original back; variant 1 is known to both -/
+def uDoc : Doc := [("U", .union [(1, .i32), (2, .ref "T")]), ("T", .struct [{ id := 1, ty := .bool, required := false }])]
+def uKeep : String → Field → Bool := fun n fl => !(n == "U" && fl.id == 2)
+def uVal : TVal := .struct (.cons 2 (.struct (.cons 1 (.bool true) .nil)) .nil)
+example : hasTy uDoc 4 (.ref "U") uVal = true ∧ projTyK (restrict uDoc uKeep) (some 64) 6 (.ref "U") uVal = some (.ok uVal) ∧
+    projTyK (restrict uDoc uKeep) (some 64) 6 (.ref "U") (.struct (.cons 1 (.i32 5) .nil)) = some (.ok (.struct (.cons 1 (.i32 5) .nil))) := by
+  decide +kernel
+example : uDoc.variantsOk := by
+  intro n vs h
+  by_cases hU : n = "U"
+  · subst hU; simp [uDoc, Doc.find] at h; subst h; decide
+  · exfalso
+    simp only [uDoc, Doc.find, List.find?] at h
+    have h1 : ("U" == n) = false := by simpa using fun h => hU h.symm
+    simp only [h1] at h
+    split at h <;> simp at h
 
 /-! non-vacuity of the two theorems above: a reader that knows field 1 only, a writer that also sent 2 and 9 -/
 def rdDoc : Doc := [("S", .struct [{ id := 1, ty := .i32, required := true }])]
